@@ -20,7 +20,7 @@ use super::extension_metadata::WithExtMetadataBlocks;
 use super::rpu_data_header::RpuDataHeader;
 
 // 16 bits min for required level 254 + CRC32 + 0x80
-const DM_DATA_PAYLOAD2_MIN_BITS: u64 = 56;
+pub(crate) const DM_DATA_PAYLOAD2_MIN_BITS: u64 = 56;
 
 #[derive(Debug, Default, Clone)]
 #[cfg_attr(feature = "serde", derive(Deserialize, Serialize))]
